@@ -8,7 +8,7 @@ import random
 from . import common as C, proggen as P, progrun as R
 
 PROP = "C08"
-MODULES = ["RuschmProofs.C08", "RuschmProofs.C08Types", "RuschmProofs.BuiltinTable"]
+MODULES = ["RuschmProofs.C08", "RuschmProofs.C08Types", "RuschmProofs.BuiltinTable", "RuschmProofs.C08Order"]
 
 
 ORDER_PROBES = [
